@@ -17,7 +17,7 @@ from vlib.props import c06
 
 ID = 'C09'
 TITLE = 'posterior summaries'
-CASES = {'quick': 110, 'thorough': 6400}
+CASES = {'quick': 200, 'thorough': 6400}
 SHARDS = {'quick': 1, 'thorough': 16}
 RULE = ('Generated: a small retrievable world, 1-4 fitted parameters with drawn priors, 0-3 derived parameters, '
         'an observation, and a posterior sample set of 1-80 points (drawn through the priors so every sample '
@@ -33,7 +33,7 @@ ASSUMPTIONS = [
     'random.sample inside sample_parameters is seeded by the harness from the case',
     'stored spectrum compared with an independent model at the MAP on the full native grid and the C05 reference binning, rtol 1e-9',
 ]
-REQUIRED = {'sampler:nestle': 0.3, 'sampler:multinest': 0.2, 'weights:nonuniform': 0.4, 'has-derived': 0.3}
+REQUIRED = {'refit-on-same-optimizer': 0.15, 'sampler:nestle': 0.3, 'sampler:multinest': 0.2, 'weights:nonuniform': 0.4, 'has-derived': 0.3}
 
 DERIVED = ['mu', 'logg', 'avg_T']
 
@@ -65,7 +65,7 @@ def _case(draw):
     return {'tiny': tiny, 'world': w, 'sampler': sampler, 'family': family, 'fitted': list(fitted), 'priors': pri,
             'obs': draw(c06.observation_spec()), 'ns': ns, 'wkind': wkind, 'u': u, 'wr': wr, 'derived': derived,
             'ngauss': draw(st.integers(1, 2)), 'split': draw(st.floats(0.2, 0.8)),
-            'size': draw(st.sampled_from(['heavy', 'light', 'lighter']))}
+            'size': draw(st.sampled_from(['heavy', 'light', 'lighter'])), 'refit': draw(st.sampled_from([True, False, False]))}
 
 
 def strategy(tier):
@@ -252,6 +252,20 @@ def check(case):
                 def get_stats(self):
                     return R.mn_stats
             pm.Analyzer = Analyzer
+            if case.get('refit') and case['ns'] >= 4:
+                # history: the SAME optimizer has already completed a fit on another sample set (other size, other
+                # values per index); the solution judged below must describe the second set only
+                out.cls('refit-on-same-optimizer')
+                keep_s, keep_w = R.samples, R.weights
+                k_ = max(2, case['ns'] - 3)
+                R.samples, R.weights = keep_s[::-1][:k_].copy(), keep_w[::-1][:k_].copy()
+                if R.weights.sum() <= 0:
+                    R.weights = np.ones(k_) / k_
+                with contextlib.redirect_stdout(io.StringIO()), np.errstate(all='ignore'):
+                    cut(out, 'fit@%s,first-of-two' % sampler, R.opt.fit, size)
+                R.samples, R.weights = keep_s, keep_w
+                if hasattr(R, 'modes'):
+                    del R.modes
             with contextlib.redirect_stdout(io.StringIO()), np.errstate(all='ignore'):
                 solution = cut(out, 'fit@' + sampler, R.opt.fit, size)
         fit_names = list(R.opt.fit_names)
